@@ -22,6 +22,7 @@ Definition Q_CONST_UNTYPED := 8. (* CONST ignores the type suffix of its name *)
 Definition Q_INT_LONG := 9.      (* INT(x) typed LONG *)
 Definition Q_LEN_LONG := 10.     (* LEN / INSTR typed LONG *)
 Definition Q_DBL_INF := 11.      (* DOUBLE overflow gives inf instead of an error *)
+Definition Q_RESTORE_WRAP := 12. (* D11: RESTORE without label rewinds to "part -1": the items are read twice *)
 Definition no_quirks : Z -> bool := fun _ => false.
 
 Inductive vty := TI | TL | TS | TD | TStr.
@@ -44,11 +45,12 @@ Definition default_of (t : vty) : cell :=
 (* run-time error classes of the language *)
 Inductive err :=
 | EDivZero | EOverflow | ESubscript | EIllegal | EOutOfData | EReadSyntax
-| ETypeMismatch.   (* only reachable with a quirk switched on *)
+| ETypeMismatch    (* only reachable with a quirk switched on *)
+| EExhausted.      (* not a language error: the scripted device input ran out *)
 
 Definition err_id (e : err) : Z :=
   match e with EDivZero => 1 | EOverflow => 2 | ESubscript => 3 | EIllegal => 4
-             | EOutOfData => 5 | EReadSyntax => 6 | ETypeMismatch => 7 end.
+             | EOutOfData => 5 | EReadSyntax => 6 | ETypeMismatch => 7 | EExhausted => 8 end.
 
 (* why codes of PStuck / Stuck: 1 out of fuel, 2 ill-formed program, 3 not modelled
    (float ^ with a fractional or huge exponent), 4 input script exhausted *)
